@@ -64,6 +64,8 @@ type Interp struct {
 	soaked bool
 	soakAt uint64
 	wedged bool
+	soakN  int // soaks so far in this case
+	hungReset bool // the clean-up of the previous case hung: reported by the first op of the next one
 	cmaps  map[string]map[interface{}]interface{} // the caller's own attachment maps (WithAttachments arguments)
 	rv     *rendezvous
 }
@@ -81,14 +83,28 @@ func New() vh.Interp {
 
 func (it *Interp) Reset() {
 	// finish what the previous case left in flight (contexts go back to the pool, gauges are balanced) - unless an op
-	// hung: then nothing of that case is touched again
-	for i := len(it.order) - 1; i >= 0 && !it.wedged; i-- {
-		x := it.ents[it.order[i]]
-		if x.e != nil && !x.exited {
-			x.e.Exit()
+	// hung: then nothing of that case is touched again.  The exits themselves run under the watchdog as well (an Exit can
+	// be the first call to meet a mutex that an earlier, recovered panic left locked).
+	if !it.wedged {
+		done := make(chan struct{})
+		order, ents := it.order, it.ents
+		go func() {
+			defer close(done)
+			for i := len(order) - 1; i >= 0; i-- {
+				x := ents[order[i]]
+				if x.e != nil && !x.exited {
+					x.e.Exit()
+				}
+			}
+		}()
+		select {
+		case <-done:
+		case <-time.After(hangAfter):
+			it.hungReset = true
 		}
 	}
 	it.wedged = false
+	it.soakN = 0
 	it.cmaps = map[string]map[interface{}]interface{}{}
 	// the inbound node is package level: bring its gauge back to zero (a recovered panic leaves it off by one)
 	in := stat.InboundNode()
@@ -340,6 +356,7 @@ func (it *Interp) soak(G, N int, R, seed uint64) string {
 	old := runtime.GOMAXPROCS(8)
 	defer runtime.GOMAXPROCS(old)
 	custom := it.chain("c/N/p/S")
+	soakN := it.soakN + 1
 	// Recycle the current bucket of every node the soak will touch before going parallel: a writer racing with the
 	// recycling of a stale bucket can lose its update (BucketStart is published before the counters are zeroed) - that is
 	// C09's subject (concurrent writers and rollover), not C01's; adding 0 is invisible to every observation.
@@ -351,6 +368,13 @@ func (it *Interp) soak(G, N int, R, seed uint64) string {
 	}
 	var wg sync.WaitGroup
 	bad := int32(0)
+	// the first three rounds of every goroutine enter a resource nobody has entered before, all goroutines at the same
+	// moment (barrier): concurrent first entries of one resource must end up on one node
+	it.soakN++
+	var barriers [3]sync.WaitGroup
+	for k := range barriers {
+		barriers[k].Add(G)
+	}
 	for g := 0; g < G; g++ {
 		wg.Add(1)
 		go func(g int) {
@@ -363,6 +387,11 @@ func (it *Interp) soak(G, N int, R, seed uint64) string {
 				x4 := lcg(x3)
 				x = x4
 				res := "s" + strconv.FormatUint(x1%R, 10)
+				if i < 3 {
+					res = fmt.Sprintf("f%d_%d", soakN, i)
+					barriers[i].Done()
+					barriers[i].Wait()
+				}
 				opts := []sentinel.EntryOption{sentinel.WithBatchCount(uint32(x3%3 + 1)), sentinel.WithResourceType(resTypeList[x4%7])}
 				if x2%2 == 0 {
 					opts = append(opts, sentinel.WithTrafficType(base.Inbound))
@@ -414,6 +443,11 @@ func (it *Interp) soak(G, N int, R, seed uint64) string {
 func (it *Interp) Step(t []string, op string) string {
 	if it.wedged {
 		return "HANG"
+	}
+	if it.hungReset {
+		// a case whose ops all returned left something behind that blocks a plain Exit
+		it.hungReset = false
+		return "HANG-IN-CLEANUP-OF-PREVIOUS-CASE"
 	}
 	done := make(chan string, 1)
 	go func() {
